@@ -872,6 +872,14 @@ package tcell
 //@   requires bufwf(buf) && buf != nil && keysNonEmpty(t.keycodes) && valsNonNil(t.keycodes) && !isNil(t.decoder) && t.ti != nil && t.cells.w >= 1 && t.cells.h >= 1
 //@   ensures [drained] expire ==> buf.off == len(buf.buf)
 //@   ensures [wf] bufwf(buf)
+//@   calls [rune-held-back] call(parseRune, recv, b, e, ret) ==> (ret.0 && !ret.1 && !expire ==> stepcalls(NewEventKey) == 0)
+//@   calls [key-held-back] call(parseFunctionKey, recv, b, e, ret) ==> (ret.0 && !ret.1 && !expire ==> stepcalls(NewEventKey) == 0)
+//@   calls [xmouse-held-back] call(parseXtermMouse, recv, b, e, ret) ==> (ret.0 && !ret.1 && !expire ==> stepcalls(NewEventKey) == 0)
+//@   calls [sgrmouse-held-back] call(parseSgrMouse, recv, b, e, ret) ==> (ret.0 && !ret.1 && !expire ==> stepcalls(NewEventKey) == 0)
+//@   calls [clipboard-held-back] call(parseClipboard, recv, b, e, ret) ==> (ret.0 && !ret.1 && !expire ==> stepcalls(NewEventKey) == 0)
+//@   calls [mouse-asked-first] call(NewEventKey, k, r, m, ret) ==> (len(t.ti.Mouse) > 0 ==> stepcalls(parseXtermMouse) == 1 && stepcalls(parseSgrMouse) == 1)
+//@   calls [keys-asked-first] call(NewEventKey, k, r, m, ret) ==> stepcalls(parseRune) == 1 && stepcalls(parseFunctionKey) == 1
+//@   calls [focus-held-back] call(parseFocus, recv, b, e, ret) ==> (ret.0 && !ret.1 && !expire ==> stepcalls(NewEventKey) == 0)
 //@   ghost entry: started = false
 //@   ghost loop-end:1: started = true
 //@   loop 1:
